@@ -315,7 +315,9 @@ def new_vector(eng, st, t, name):
     if tc == 'ptrvec':
         return Ptr(st.alloc(PtrVec(z3.IntVal(0), ())))
     if 'vector<PyTreeSpec' in t or 'vector<optree::PyTreeSpec' in t:
-        return Ptr(st.alloc(PtrVec(z3.IntVal(0), ())))
+        # std::vector<PyTreeSpec> of copies of *existing* treespec objects: each element is identified by the Python object
+        # it was cast from; its contents are the (immutable) contents of that object (M.ext_spec_*)
+        return Ptr(st.alloc(ScalarVec.empty('specvec:' + name, Ref)))
     if 'vector<std::basic_string' in t or 'vector<std::string' in t:
         return Ptr(st.alloc(ScalarVec.empty(name, Ref)))
     raise Unsupported(f'new_vector of {t}')
